@@ -68,6 +68,20 @@ def run(ctx: Ctx) -> None:
     ok = "self.wsgi_app = WSGIWrapper(wsgi_app, max_body_size)" in norm(mwi)
     ctx.check("C17.R2", "middleware.wsgi:_WSGIMiddleware.__init__", "WSGIWrapper(wsgi_app, max_body_size)", ok, "the middleware must wrap the application with its body limit", mwi)
 
+    wa = repo.func("utils", "wrap_app")
+    src = norm(wa)
+    rets = [n for n in walk_local(wa) if isinstance(n, ast.Return)]
+    ok = "mode = 'asgi' if is_asgi(app) else 'wsgi'" in src and len(rets) == 2
+    if ok:
+        a_ = [r for r in rets if "ASGIWrapper" in norm(r.value)]
+        w_ = [r for r in rets if "WSGIWrapper" in norm(r.value)]
+        ok = len(a_) == 1 and len(w_) == 1 and ("mode == 'asgi'", True) in guard_atoms(a_[0]) and ("mode == 'asgi'", False) in guard_atoms(w_[0]) and "wsgi_max_body_size" in norm(w_[0].value)
+    ctx.check("C17.R6", "utils:wrap_app", "mode asgi -> ASGIWrapper; wsgi (or not a coroutine callable) -> WSGIWrapper(app, wsgi_max_body_size)", ok, "application kind detection / wrapping changed", wa)
+    ia = repo.func("utils", "is_asgi")
+    src = norm(ia)
+    ok = "inspect.iscoroutinefunction(app)" in src and "inspect.iscoroutinefunction(app.__call__)" in src and src.rstrip().endswith("return False")
+    ctx.check("C17.R6", "utils:is_asgi", "coroutine function or object with a coroutine __call__ is ASGI, everything else WSGI", ok, "a WSGI callable would be treated as ASGI (or the reverse)", ia)
+
     # R3
     g = CFG(ra)
     bind = g.where(has_stmt(lambda n: isinstance(n, ast.Call) and call_name(n) == "self.app"))
